@@ -1,0 +1,9 @@
+//go:build verif
+
+// Contracts for package dns, read by /verif/govc (comment-only file).
+
+package dns
+
+//@ func (*Upstream).String
+//@   pure
+//@   trusted
